@@ -35,6 +35,11 @@ on TYPE texts -- impl headers, parameter types, where clauses -- never on a form
 What the back ends (sections 5-6) accept of it is narrower and strict: every construct they do not know makes the
 function a hole (`UNTRANSLATABLE <file> fn <name>: unsupported <construct>`, exit status 3: exactly its tie breaks,
 which is the intended outcome).  Section 7 pins the accessors that are translated by convention.
+Iterator values in the mul back end (labelled Product2/3 since repair abca806): `let r = izip!(t, a).map(|(&b, &a)| e);` binds a
+lazily mapped zip of tables (kind "It": generated as the table of its items `Vector.ofFn fun k => e`, the closures of the subset
+being pure scalar arithmetic), which only `iproduct!(r0, r1[, r2])` inside `izip!(.., &a)` may consume: row-major like
+`product2_iter`, FLAT item tuples, item of flat index k = entries (idxN k).j of the factors, closure patterns `|((r0, r1), _)|` /
+`|(_, &a)|`;  `let (x, y) = (e, f);` is rendered as consecutive `let`s (refused when a component mentions a bound name).
 
 Comparisons (property C20; section 5b; model SLV/Model/Eq.lean; the definitions take `[CmpScalar α]`):
   * BOpinion_abs_diff_eq / BOpinion_relative_eq / BOpinion_ulps_eq  (Bi.lean; ties gen_BOpinion_{abs_diff_eq,relative_eq,
@@ -129,7 +134,7 @@ def tokenize(text, fname):
 #   ("if", cond, block, else)          else: None | block | ("if", ...)
 #   ("match", scrut, [(pats, guard, expr)])     pats: list of alternatives
 #   ("block", [stmts], tail)           tail: expr | None
-#   ("closure", [pats], body)
+#   ("closure", [pats], body, [types])  types: per parameter the type text, None when not annotated
 #   ("macro", name, [args])            name!(args)  (args parsed as expressions)
 #   ("struct", path, [(field, e)])
 #   ("return", e|None)
@@ -443,22 +448,23 @@ class Parser:
         self.fail("expression")
 
     def closure(self):
-        pats = []
+        pats, tys = [], []
         if self.at("||"):
             self.next()
         else:
             self.expect("|")
             while not self.at("|"):
                 pats.append(self.pattern())
+                tys.append(None)
                 if self.at(":"):
                     self.next()
-                    self.skip_type([",", "|"])
+                    tys[-1] = "".join(self.skip_type([",", "|"])).strip()
                 if self.at(","):
                     self.next()
             self.next()
         if self.at("->"):
             self.fail("closure return type")
-        return ("closure", pats, self.expr())
+        return ("closure", pats, self.expr(), tys)
 
     def ifexpr(self):
         self.expect("if")
@@ -864,6 +870,7 @@ class Emit:
             v = self.ex(s[3], sc)
             sc2 = dict(sc)
             sc2[n] = lname(n)
+            self.note_let(n, s[3], sc, sc2)
             rest = self.seq(stmts, i + 1, tail, sc2, deferred - {n})
             return self.mklet(lname(n), v, rest)
         if k == "ifs":
@@ -882,7 +889,13 @@ class Emit:
         v = self.ex(s[2], sc)
         sc2 = dict(sc)
         sc2[n] = lname(n)
+        self.note_let(n, s[2], sc, sc2)
         return self.mklet(lname(n), v, self.seq(stmts, i + 1, tail, sc2, deferred - {n}))
+
+    def note_let(self, n, value, sc, sc2):
+        """hook: `n` has just been bound to the Rust expression `value` (translated in scope `sc`); `sc2` is the
+        scope of the continuation.  Back ends may record facts about `n` in `sc2` (keys that are not Rust names)."""
+        pass
 
     def if_stmt(self, e, stmts, i, tail, sc, deferred):
         """`if c { assignments } else { assignments }` followed by more statements: the continuation is
@@ -959,6 +972,8 @@ def describe(e, depth=0):
 # ------------------------------------------------------------------------------------------------
 LABELS = {'"b"': ".bb", '"d"': ".dd", '"u"': ".u", '"a"': ".ba", '"ev"': ".ev", '"b + d + u"': ".bdu"}
 TRIPLE = {"b": ".1", "d": ".2.1", "u": ".2.2"}
+FLOAT_MINMAX = {"min": "Scalar.min", "max": "Scalar.max"}
+SCALAR_MARK = "%scalar:"          # scope keys `%scalar:<rust name>`: the name is known to hold a `$ft` value
 
 
 class BiEmit(Emit):
@@ -1001,6 +1016,7 @@ class BiEmit(Emit):
                 self.bops = getattr(self, "bops", set()) | {n}
             elif ty in ("$ft", "V"):
                 sc[n] = lname(n)
+                sc[SCALAR_MARK + n] = True
                 binders.append("(%s : α)" % lname(n))
             elif ty == "S" and self.spec.get("label_param") == n:
                 sc[n] = lname(n)            # `label: S` with S: Into<String>  ↦  a `Label`
@@ -1011,9 +1027,38 @@ class BiEmit(Emit):
                 binders.append("(c0 c1 : α × α × α)")
             else:
                 self.fail("parameter type `%s`" % ty)
-        for n in list(sc.values()):
-            pass
         return sc, binders
+
+    # which Rust expressions are known to be of the float type `$ft` (no type inference here: a syntactic
+    # under-approximation; needed where a method name alone does not determine the meaning, e.g. `.min(..)` exists on
+    # `f64` (NaN-skipping), on `bool` and on every `Ord` type)
+    def note_let(self, n, value, sc, sc2):
+        if self.is_scalar_expr(value, sc):
+            sc2[SCALAR_MARK + n] = True
+        else:
+            sc2.pop(SCALAR_MARK + n, None)
+
+    def is_scalar_expr(self, e, sc):
+        k = e[0]
+        if k == "paren":
+            return self.is_scalar_expr(e[1], sc)
+        if k == "num":
+            return e[1] in self.SCALAR_LIT
+        if k == "un" and e[1] in ("*", "&"):
+            return self.is_scalar_expr(e[2], sc)
+        if k == "bin" and e[1] in ("+", "-", "*", "/"):
+            return self.is_scalar_expr(e[2], sc) and self.is_scalar_expr(e[3], sc)
+        if k == "path" and len(e[1]) == 1:
+            return bool(sc.get(SCALAR_MARK + e[1][0])) and e[1][0] in sc
+        if k == "field":
+            return self.is_bop(e[1], sc) and e[2] == "base_rate"
+        if k == "mcall" and not e[3]:
+            if self.is_bop(e[1], sc) and e[2] in ("b", "d", "u", "a", "projection"):
+                return True
+            return bool(self.is_cond(e[1], sc)) and e[2] in TRIPLE
+        if k == "mcall" and e[2] in FLOAT_MINMAX and len(e[3]) == 1:
+            return self.is_scalar_expr(e[1], sc) and self.is_scalar_expr(e[3][0], sc)
+        return False
 
     def is_bop(self, e, sc):
         return e[0] == "path" and len(e[1]) == 1 and e[1][0] in sc and \
@@ -1037,6 +1082,13 @@ class BiEmit(Emit):
             c = self.is_cond(recv, sc)
             if c and name in TRIPLE:
                 return (c + TRIPLE[name], P_ATOM)
+        if k == "mcall" and e[2] in FLOAT_MINMAX and len(e[3]) == 1:
+            # `r.min(s)` / `r.max(s)` on floats: the inherent `f64::min` / `f64::max` ("if one of the arguments is NaN,
+            # then the other argument is returned") ≙ `Scalar.min` / `Scalar.max`.  Only when BOTH operands are
+            # syntactically known to be `$ft` values (`is_scalar_expr`): on any other receiver the name means something else.
+            if not (self.is_scalar_expr(e[1], sc) and self.is_scalar_expr(e[3][0], sc)):
+                self.fail("method call `%s` on operands that are not recognisably `$ft` values" % describe(e))
+            return app(FLOAT_MINMAX[e[2]], self.ex(e[1], sc), self.ex(e[3][0], sc))
         if k == "field" and self.is_bop(e[1], sc) and e[2] == "base_rate":
             return (sc[e[1][1][0]] + ".a", P_ATOM)
         if k == "match":
@@ -1216,6 +1268,7 @@ class BiEmit(Emit):
             def k(e2, sc2):
                 sc3 = dict(sc2)
                 sc3[n] = lname(n)
+                self.note_let(n, e2, sc2, sc3)
                 return self.mklet(lname(n), self.ex(e2, sc2), self.seq(stmts, i + 1, tail, sc3, deferred))
             return self.with_tries(s[2], sc, k)
         return Emit.let(self, s, stmts, i, tail, sc, deferred)
@@ -2162,6 +2215,8 @@ class MulEmit(Emit):
             return self.member(e, r, e[2], e[3], sc)
         if k == "call" and e[1][0] == "path":
             return self.call("::".join(e[1][1]), e[2], e, sc)
+        if k == "closure":
+            return self.local_fn(e, sc)
         if k == "match":
             return self.match_op(e, sc)
         if k == "struct":
@@ -2323,6 +2378,12 @@ class MulEmit(Emit):
         return {"V::one": "(Scalar.one : α)", "V::zero": "(Scalar.zero : α)"}.get(f)
 
     def call(self, f, args, e, sc):
+        if f in sc and sc[f][1][0] == "Fn":
+            # `mid(x, y)` of a local `let mid = |l: V, r: V| ..;` : application of the let-bound function
+            a = [self.ex3(x, sc) for x in args]
+            if tuple(x[2] for x in a) != sc[f][1][1]:
+                self.fail("call `%s` of a local closure with argument kinds %r" % (describe(e), [x[2] for x in a]))
+            return app(sc[f][0], *[x[:2] for x in a]) + (sc[f][1][2],)
         if self.scalar_const(f) and not args:
             return (self.scalar_const(f), P_ATOM, S)
         if f in ("is_zero", "is_one", "approx_ext::is_zero", "approx_ext::is_one") and len(args) == 1:
@@ -2461,6 +2522,38 @@ class MulEmit(Emit):
         t = t + " " + bt if "\n" not in bt and len(bt) < 90 else t + "\n" + ind(bt)
         return (t, P_LOW, ("V", d, body[2]))
 
+    def local_fn(self, clo, sc):
+        """a closure used as a value (`let mid = |l: V, r: V| ..;`, later called as `mid(x, y)`): a Lean function
+        of kind ("Fn", parameter kinds, result kind).  Only the shape that has a faithful counterpart is accepted:
+        every parameter a plain name annotated with the scalar type `V` (the values are `Copy`: passing is by value),
+        a body that is a pure scalar / boolean expression and cannot panic, and no capture of a `mut` local (the
+        let-bound function would freeze the captured value).  Anything else stays an explicit failure."""
+        tys = clo[3] if len(clo) > 3 else [None] * len(clo[1])
+        if not clo[1]:
+            self.fail("closure without parameters used as a value")
+        sc2 = Scope({k_: v_ for k_, v_ in sc.d.items() if k_ not in sc.mut})
+        binders = []
+        for pat, ty in zip(clo[1], tys):
+            if pat[0] != "pid" or len(pat) > 2:
+                self.fail("closure used as a value: parameter pattern `%s`" % describe(pat))
+            if ty != "V":
+                self.fail("closure used as a value: parameter `%s` of type `%s` (only `V`)" % (pat[1], ty))
+            sc2 = sc2.bind(pat[1], lname(pat[1]), S)
+            binders.append("(%s : α)" % lname(pat[1]))
+        was, was_raised = self.in_closure, self.closure_raised
+        self.in_closure, self.closure_raised = True, False
+        try:
+            body = self.ex3(clo[2], sc2)
+            raised = self.closure_raised
+        finally:
+            self.in_closure, self.closure_raised = was, was_raised
+        if raised or body[2] not in (S, B):
+            self.fail("closure used as a value: body of kind %r%s" % (body[2], " that may panic" if raised else ""))
+        bt = body[0]
+        t = "fun " + " ".join(binders) + " =>"
+        t = t + " " + bt if "\n" not in bt and len(bt) < 90 else t + "\n" + ind(bt)
+        return (t, P_LOW, ("Fn", tuple(S for _ in binders), body[2]))
+
     def closure_body(self, b, sc):
         """value of a closure body; a body that also updates an outer accumulator is handled in `let`"""
         was, was_raised = self.in_closure, self.closure_raised
@@ -2528,11 +2621,29 @@ class MulEmit(Emit):
                 if pat[0] != "ptuple" or len(pat[1]) != len(it["srcs"]):
                     self.fail("closure parameter of a zipped chain")
                 var = "k"
-                while var in sc or any(var == (q[1][1] if q[0] == "pref" else q[1:2] and q[1]) for q in pat[1]):
+                def pat_names(q):
+                    if q[0] == "pref":
+                        return pat_names(q[1])
+                    if q[0] == "ptuple":
+                        return [n_ for q_ in q[1] for n_ in pat_names(q_)]
+                    return [q[1]] if q[0] == "pid" else []
+                while var in sc or var in pat_names(pat):
                     var += "_"
                 sc2 = sc
                 for q, src in zip(pat[1], it["srcs"]):
                     q = q[1] if q[0] == "pref" else q
+                    if isinstance(src, tuple):
+                        if q[0] == "pwild":
+                            continue
+                        if q[0] != "ptuple" or len(q[1]) != len(src[1]):
+                            self.fail("closure parameter of a zipped chain (item of `iproduct!`)")
+                        projs = [".1", ".2"] if len(src[1]) == 2 else [".1", ".2.1", ".2.2"]
+                        for q_, t_, pj in zip(q[1], src[1], projs):
+                            if q_[0] == "pid":
+                                sc2 = sc2.bind(q_[1], "%s[(idx%d %s)%s]" % (t_, len(src[1]), var, pj), S)
+                            elif q_[0] != "pwild":
+                                self.fail("closure parameter of a zipped chain (item of `iproduct!`)")
+                        continue
                     if q[0] == "pid":
                         sc2 = sc2.bind(q[1], "%s[%s]" % (src, var), S)
                     elif q[0] != "pwild":
@@ -2558,10 +2669,26 @@ class MulEmit(Emit):
     def zipped(self, parts, sc, e):
         """`izip!(a, b, &c)` / `a.zip(&c)` over tables (or `product2_iter` results) of one shape: the k-th item
         is the tuple of the k-th entries"""
-        rs = [self.ex3(x, sc) for x in parts]
-        if any(r[2][0] != "V" or r[2][2] != S for r in rs) or len({r[2][1] for r in rs}) != 1:
+        srcs, dims = [], []
+        for x in parts:
+            if x[0] == "macro" and x[1] == "iproduct":
+                # `iproduct!(r0, r1[, r2])` over `let`-bound lazily mapped iterators (kind "It", see `seq`): the
+                # cartesian product in row-major order (first factor outermost, as `product2_iter` of the multi_array
+                # helpers), items are FLAT tuples; the item of flat index k pairs entry (idxN k).j of the j-th factor
+                fs = [self.ex3(y, sc) if y[0] == "path" and len(y[1]) == 1 else None for y in x[2]]
+                if len(fs) not in (2, 3) or any(f_ is None or f_[2][0] != "It" for f_ in fs):
+                    self.fail("`iproduct!` of `%s` (only 2 or 3 `let`-bound mapped iterators)" % describe(x))
+                srcs.append(("prod", [f_[0] for f_ in fs]))
+                dims.append(" * ".join(f_[2][1] for f_ in fs))
+                continue
+            r = self.ex3(x, sc)
+            if r[2][0] != "V" or r[2][2] != S:
+                self.fail("zip of `%s`" % describe(e))
+            srcs.append(paren(r[:2], P_ATOM))
+            dims.append(r[2][1])
+        if len(set(dims)) != 1:
             self.fail("zip of `%s`" % describe(e))
-        return {"kind": "zip", "dim": self.dim(rs[0][2][1]), "srcs": [paren(r[:2], P_ATOM) for r in rs],
+        return {"kind": "zip", "dim": self.dim(dims[0]), "srcs": srcs,
                 "src": None, "filter": None, "map": None}
 
     def lam(self, it, what):
@@ -2705,11 +2832,41 @@ class MulEmit(Emit):
                                rest(sc.bind("simplex", "simplex", ("Sx", v[2][1][1]))))
                 return ("match " + v[0] + " with\n| .error e => .error e\n| .ok t_ =>\n" + ind("(" + r[0] + ")"), P_LOW)
             self.fail("destructuring of a value of kind %r" % (v[2],))
+        if k == "let" and s[1][0] == "ptuple" and s[2] is not None and s[2][0] == "tuple" \
+                and len(s[1][1]) == len(s[2][1]) >= 2 and all(q[0] == "pid" and len(q) == 2 for q in s[1][1]):
+            # `let (x, y) = (e, f);` : every component is evaluated in the scope BEFORE the statement; rendered as
+            # consecutive `let`s, which is the same as long as no new Lean name occurs in a component's text
+            vs = [self.ex3(x, sc) for x in s[2][1]]
+            names = [q[1] for q in s[1][1]]
+            if len(set(names)) != len(names):
+                self.fail("`let` tuple pattern binding a name twice")
+            for v_ in vs:
+                if v_[2] == ("Opt", None) or v_[2][0] in ("Exc", "It"):
+                    self.fail("`let` tuple pattern on a component of kind %r" % (v_[2],))
+                if any(re.search(r"(?<![\w.'])%s(?![\w'])" % re.escape(lname(n_)), v_[0]) for n_ in names):
+                    self.fail("`let` tuple pattern whose right-hand side mentions a bound name")
+            sc2 = sc
+            for n_, v_ in zip(names, vs):
+                sc2 = sc2.bind(n_, lname(n_), v_[2])
+            r = rest(sc2)
+            for n_, v_ in reversed(list(zip(names, vs))):
+                r = self.mklet(lname(n_), v_[:2], r)
+            return r
         if k == "let":
             if s[1][0] != "pid" or s[2] is None:
                 self.fail("`let` form (pattern / deferred initialisation)")
             n = s[1][1]
             mutable = len(s[1]) > 2
+            itv = self.iterator(s[2], sc) if s[2][0] == "mcall" else None
+            if itv is not None:
+                # `let r = izip!(t, a).map(|(&b, &a)| e);` : a lazily mapped zip of tables that a later `iproduct!`
+                # consumes.  The closures of the subset are pure scalar arithmetic, so the iterator is determined by
+                # the table of its items; the name gets the kind ("It", dim), which nothing but `iproduct!` accepts.
+                if itv["kind"] != "zip" or itv["map"] is None or itv["filter"] is not None or itv["map"][1][2] != S \
+                        or mutable or any(isinstance(x, tuple) for x in itv["srcs"]):
+                    self.fail("`let` of an iterator of this shape `%s`" % describe(s[2]))
+                val = ("Vector.ofFn " + self.lam(itv, "map"), P_APP)
+                return self.mklet(lname(n), val, rest(sc.bind(n, lname(n), ("It", itv["dim"]))))
             acc = self.accumulating_from_fn(s[2], sc)
             if acc is not None:
                 clo_stripped, accname, d = acc
@@ -2723,6 +2880,8 @@ class MulEmit(Emit):
             v = self.ex3(s[2], sc)
             if v[2] == ("Opt", None):
                 self.fail("untyped `None`")
+            if v[2][0] == "Fn" and mutable:
+                self.fail("`let mut %s = <closure>`" % n)
             if v[2][0] == "V" and v[2][2][0] == "Exc" and self.except_mode and not self.in_closure:
                 # a container built by a closure that may panic: first error in index order, else the container
                 vt = "(" + v[0] + ")" if v[1] < P_ATOM else v[0]
